@@ -470,7 +470,23 @@ func c14NoPooledAliasAs(r *core.Report, rule string) {
 		g := p.Graph(f)
 		for _, rn := range g.Returns() {
 			for _, e := range returnResults(rn) {
-				if !isByteSlice(info.TypeOf(e)) || !mentionsAny(info, e, taint, false) {
+				if !mentionsAny(info, e, taint, false) {
+					continue
+				}
+				// `return helper(pooledSlice, ...)`: the helper may hand back a sub-slice of its argument
+				if c, isCall := core.Unparen(e).(*ast.CallExpr); isCall && !isByteSlice(info.TypeOf(e)) {
+					if fn := core.Callee(info, c); fn != nil {
+						if callee := p.ByObj[fn.Origin()]; callee != nil && callee.Body != nil {
+							for ai, a := range c.Args {
+								if mentionsAny(info, a, taint, false) && returnsAliasOfParam(p, callee, ai, 0) {
+									bad = "the result returned at " + p.Rel(rn.Ast.Pos()) + " comes from " + callee.Key + ", which returns a sub-slice of its argument " + core.ExprStr(a) + " - a buffer that goes back to a sync.Pool"
+								}
+							}
+						}
+					}
+					continue
+				}
+				if !isByteSlice(info.TypeOf(e)) {
 					continue
 				}
 				if isCopyingExpr(p, info, e) {
@@ -503,6 +519,45 @@ func isCopyingExpr(p *core.Prog, info *types.Info, e ast.Expr) bool {
 	if fn := core.Callee(info, c); fn != nil {
 		if t := p.ByObj[fn]; t != nil && allocatesCopy(t) {
 			return true
+		}
+	}
+	return false
+}
+
+// returnsAliasOfParam: some byte-slice result of callee is (a reslice of, or a local derived without copying from) its
+// parameter number idx, possibly through one more helper.
+func returnsAliasOfParam(p *core.Prog, callee *core.Func, idx int, depth int) bool {
+	po := callee.ParamObj(idx)
+	if po == nil || depth > 3 || !isByteSlice(po.Type()) {
+		return false
+	}
+	info := callee.Pkg.TypesInfo
+	taint := taintFrom(callee, po)
+	taint[po] = true
+	g := p.Graph(callee)
+	for _, rn := range g.Returns() {
+		for _, e := range returnResults(rn) {
+			if !mentionsAny(info, e, taint, false) {
+				continue
+			}
+			if c, isCall := core.Unparen(e).(*ast.CallExpr); isCall {
+				if isCopyingExpr(p, info, e) {
+					continue
+				}
+				if fn := core.Callee(info, c); fn != nil {
+					if cc := p.ByObj[fn.Origin()]; cc != nil && cc.Body != nil {
+						for ai, a := range c.Args {
+							if mentionsAny(info, a, taint, false) && returnsAliasOfParam(p, cc, ai, depth+1) {
+								return true
+							}
+						}
+					}
+				}
+				continue
+			}
+			if isByteSlice(info.TypeOf(e)) {
+				return true
+			}
 		}
 	}
 	return false
